@@ -928,6 +928,11 @@ impl<'t, 'i> BlockParser<'t, 'i> {
     /// the tokens not yet parsed
     pub open spec fn rest_spec(&self) -> Seq<Token> { self.toks().subrange(self.cur(), self.toks().len() as int) }
 
+    /// when a block parser dies (finished or not) the caller's queue holds exactly the events it had at that moment
+    pub broadcast proof fn lemma_resolved(bp: BlockParser<'t, 'i>)
+        requires #[trigger] has_resolved(bp)
+        ensures bp.fin() == bp.evs()
+    {}
 /*@ fn src/parser/block_parser.rs BlockParser::new
 tags C03 C04
 ret r
@@ -2337,6 +2342,11 @@ pub open spec fn block_covered<'i>(ts: Seq<Token>, newq: Seq<Event<'i>>, oldq: S
     &&& (ts[0].kind != TokenKind::TextStep && !(newq.last() is Section && newq.last()->name.is_none())
             ==> covered(ts, ts.len() as int, newq, oldq.len() as int))
 }
+pub proof fn lemma_block_covered<'i>(ts: Seq<Token>, newq: Seq<Event<'i>>, oldq: Seq<Event<'i>>)
+    requires ev_grown(newq, oldq),
+        ts[0].kind != TokenKind::TextStep && !(newq.last() is Section && newq.last()->name.is_none()) ==> covered(ts, ts.len() as int, newq, oldq.len() as int),
+    ensures block_covered(ts, newq, oldq)
+{}
 /// C05/C17: all tokens of s in [a, b) are blank (whitespace, comments, newlines).  Opaque: used through the lemmas below.
 #[verifier::opaque]
 pub open spec fn all_blank(s: Seq<Token>, a: int, b: int) -> bool { forall|j: int| a <= j < b ==> empty_kind((#[trigger] s[j]).kind) }
@@ -2490,6 +2500,7 @@ after `self.block.push(tok);`:
 /*@ fn src/parser/mod.rs PullParser::next_block
 tags C03 C05 C17
 ret r
+attr #[verifier::spinoff_prover]
 spec:
         requires old(self).wf(), toks_ok(old(self).rem()),
         ensures final(self).wf(), final(self).ctx_same(old(self)),
@@ -2506,7 +2517,7 @@ spec:
                 && block_covered(old(self).rem().subrange(a, b), final(self).q(), old(self).q()),    // [C05] the events went to this parser's queue
             r.is_none() ==> final(self).q() == old(self).q(),
 enter:
-        hide(toks_ok); hide(is_block); hide(block_covered);
+        hide(toks_ok); hide(is_block); hide(block_covered); hide(covered);
 after `self.block.clear();`:
         let ghost r0 = old(self).rem();
         let ghost mut ls: int = 0;     // start of the current line inside the block
@@ -2583,9 +2594,74 @@ after `parse_block(&mut bp, self.old_style_metadata);`:
 after `bp.finish();`:
         proof {
             assert(bp0.evs() == old(self).q()); assert(bp1.fin() == self.q());
-            assert(self.blk().subrange(start as int, end as int) =~= r0.subrange(start as int, end as int));
-            assert(block_covered(r0.subrange(start as int, end as int), self.q(), old(self).q())) by { reveal(block_covered); }
+            assert(bp1.toks() =~= r0.subrange(start as int, end as int));
+            lemma_block_covered(bp1.toks(), bp1.evs(), bp0.evs());
         }
+@*/
+
+/*@ fn src/parser/mod.rs PullParser::next_metadata_block
+tags C03 C05
+ret r
+desugar_for 1
+spec:
+        requires old(self).wf(), toks_ok(old(self).rem()),
+        ensures final(self).wf(), final(self).ctx_same(old(self)),
+            // the call takes a prefix of the token stream
+            exists|m: int| 0 <= m <= old(self).rem().len() && final(self).rem() == #[trigger] old(self).rem().skip(m),
+            // [C05] metadata-only mode: events are only ever added to the queue
+            r.is_some() ==> ev_grown(final(self).q(), old(self).q()),
+            r.is_none() ==> final(self).q() == old(self).q(),
+enter:
+        hide(toks_ok);
+        broadcast use BlockParser::lemma_resolved;
+        let ghost r0 = old(self).rem();
+        let ghost mut k: int = 0;     // tokens skipped before the `>>`
+        proof { assert(r0.skip(0) =~= r0); }
+loop 0:
+            invariant self.wf(), self.ctx_same(old(self)), self.q() == old(self).q(), r0 == old(self).rem(), toks_ok(r0),
+                0 <= k <= r0.len(), self.rem() == r0.skip(k), self.blk().len() == 0,
+            ensures self.rem().len() > 0, self.rem()[0].kind == TokenKind::MetadataStart,
+            decreases self.fuel()
+after `self.tokens.next();`:
+            proof { assert(r0.skip(k).drop_first() =~= r0.skip(k + 1)); k = k + 1; }
+before `for tok in self.tokens.by_ref() {`:
+        let ghost mut n: int = 0;     // tokens of the entry
+        proof { assert(r0.subrange(k, k) =~= Seq::<Token>::empty()); }
+loop 1:
+            invariant_except_break
+                self.rem() == r0.skip(k + n), n == 0 ==> self.rem().len() > 0 && self.rem()[0].kind == TokenKind::MetadataStart,
+                vstd::std_specs::iter::IteratorSpec::decrease(&self.tokens).is_some(),
+            invariant
+                vstd::std_specs::iter::IteratorSpec::obeys_prophetic_iter_laws(&self.tokens), self.input.spec_bytes() == the_input(),
+                self.ctx_same(old(self)), self.q() == old(self).q(), r0 == old(self).rem(), toks_ok(r0),
+                0 <= n, 0 <= k, k + n <= r0.len(), self.blk() == r0.subrange(k, k + n),
+            ensures self.wf(), n > 0, exists|m: int| 0 <= m <= r0.len() && self.rem() == #[trigger] r0.skip(m),
+            decreases self.fuel()
+loopbody 1:
+            let ghost j = n;
+            proof {
+                assert(r0.skip(k + j).len() > 0);
+                assert(r0.skip(k + j).drop_first() =~= r0.skip(k + j + 1));
+                assert(tok == r0[k + j]);
+            }
+after `self.block.push(tok);`:
+            proof { n = j + 1; assert(r0.subrange(k, k + j + 1) =~= r0.subrange(k, k + j).push(r0[k + j])); }
+before `let mut bp = BlockParser::new(&self.block, self.input, &mut self.queue, self.extensions);`:
+        proof {
+            lemma_sub_ok(r0, k, k + n);
+            lemma_tok(self.blk(), 0);
+            broadcast use axiom_str_len_bound;
+        }
+after `let mut bp = BlockParser::new(&self.block, self.input, &mut self.queue, self.extensions);`:
+        let ghost bp0 = bp;
+before `bp.event(ev);`:
+            let ghost mid = bp;
+after `bp.event(ev);`:
+            proof { lemma_grown_push(mid.evs(), ev); lemma_grown_trans(bp.evs(), mid.evs(), bp0.evs()); }
+after `bp.finish(); // only finish if a metadata is parsed, as other blocks are not consumed`:
+            proof { assert(ev_grown(self.q(), old(self).q())); }
+before `Some(())`:
+        proof { assert(bp0.evs() == old(self).q()); assert(bp0.fin() == self.q()); }
 @*/
 }
 } // verus!
